@@ -111,6 +111,9 @@ CLAIMED.update({
 })
 
 NA = {
+ "C05": "not decided: needs the inductive invariant actual[p] <= strategic[p] plus the link between the sum over the priority list and the sum of the map (ghost prefix sets); not built - claiming fragments would claim more than is proved (DESIGN.md 12.6)",
+ "C06": "liveness (eventual delivery); its safety core reduces to 'with nothing in flight calcTactic proceeds', which needs the same list-sum/map-sum link as C05 (DESIGN.md 12.6)",
+ "C18": "the subset enumeration of genCombinations and the determinism of the divider across calls are outside what the contracts express; the filledness defect shared with C15 was found and repaired through C15 (DESIGN.md 12.6)",
  "C19": "termination of goroutines over all schedules is a liveness property; the VC generator proves partial correctness of sequential code only (DESIGN.md §9)",
 }
 NOT_YET = "not claimed yet: contracts for this property are not built/discharged at this commit (see DESIGN.md §7 for the plan)"
